@@ -290,8 +290,26 @@ func leanBool(b bool) string {
 
 type emitter struct {
 	outDir string
+	repo   string
 	facts  map[string]interface{}
+	pkgs   map[string]*pkgInfo
 }
+
+// pkg loads (once) the non-test files of a package directory relative to the repo root.
+func (e *emitter) pkg(rel string) *pkgInfo {
+	if p, ok := e.pkgs[rel]; ok {
+		return p
+	}
+	p := load(e.repo, rel)
+	e.pkgs[rel] = p
+	return p
+}
+
+// registry: one generator per topic / property, each in its own facts_*.go file:
+//   func init() { register("c17-redirects", genRedirects) }
+var registry = map[string]func(e *emitter){}
+
+func register(name string, f func(e *emitter)) { registry[name] = f }
 
 func (e *emitter) lean(name, body string) {
 	hdr := "/- GENERATED by /verif/extract from /repo's working tree — do not edit. -/\n"
@@ -309,13 +327,16 @@ func main() {
 	}
 	os.MkdirAll(*out, 0755)
 	e := &emitter{outDir: *out, facts: map[string]interface{}{}}
-	kmd := load(*repo, "cmd/keymasterd")
-	certgen := load(*repo, "lib/certgen")
-	proto := load(*repo, "lib/webapi/v0/proto")
-	genConsts(e, kmd, certgen, proto, *repo)
-	genRedirects(e, kmd)
-	genRoutes(e, kmd, *repo)
-	genSites(e, kmd, *repo)
+	e.repo = *repo
+	e.pkgs = map[string]*pkgInfo{}
+	names := make([]string, 0, len(registry))
+	for n := range registry {
+		names = append(names, n)
+	}
+	sort.Strings(names)
+	for _, n := range names {
+		registry[n](e)
+	}
 	js, _ := json.MarshalIndent(e.facts, "", " ")
 	os.WriteFile(filepath.Join(*out, "facts.json"), js, 0644)
 }
